@@ -133,6 +133,20 @@ class Finite(float):
     """Annotation: a finite float (a real); no NaN/inf case split."""
 
 
+class FixedBytes:
+    """Annotation: a bytes value of exactly n symbolic bytes."""
+
+    def __init__(self, n: int):
+        self.n = n
+
+
+class FixedStr:
+    """Annotation: a str of exactly n symbolic code points."""
+
+    def __init__(self, n: int):
+        self.n = n
+
+
 def make_args(sig: inspect.Signature):
     from crosshair.core import proxy_for_type
     from crosshair.statespace import context_statespace
@@ -154,6 +168,14 @@ def make_args(sig: inspect.Signature):
             value = builtinslib.SymbolicBoundedInt(smt_name, int)
         elif ann is str:
             value = builtinslib.LazyIntSymbolicStr(smt_name, str)
+        elif isinstance(ann, FixedBytes):
+            value = builtinslib.SymbolicBytes(
+                [builtinslib.SymbolicBoundedInt(f"{smt_name}_{i}", int, 0, 255)
+                 for i in range(ann.n)])
+        elif isinstance(ann, FixedStr):
+            value = builtinslib.LazyIntSymbolicStr(
+                [builtinslib.SymbolicBoundedInt(f"{smt_name}_{i}", int, 0, 0x10FFFF)
+                 for i in range(ann.n)])
         else:
             value = proxy_for_type(ann, smt_name, allow_subtypes=False)
         ba.arguments[name] = value
